@@ -260,7 +260,12 @@ func admissibleReg(sc *Scenario, e *syncrig.Ev) bool {
 	return e.Noise == 0 && e.Eon <= math.MaxInt64 && e.Exp <= math.MaxInt64 && sc.Defs[e.Def].Bad == 0
 }
 
-func regKey(e *syncrig.Ev) string { return fmt.Sprintf("%d/%d/%d/%d", e.Eon, e.P, e.S, e.Def) }
+// regKey is the registration's key (eon, identity): the identity covers prefix, sender and the
+// definition BYTES - two entries of Scenario.Defs that encode to the same bytes are the same
+// definition, and registering them for one (eon, prefix, sender) is the same key twice.
+func regKey(sc *Scenario, e *syncrig.Ev) string {
+	return fmt.Sprintf("%d/%d/%d/%x", e.Eon, e.P, e.S, defBytes(sc.Defs[e.Def]))
+}
 
 func forkNumber(a, b *ethfake.Block, upto int64) int64 {
 	if upto < 0 {
@@ -403,10 +408,10 @@ func (w *world) runScenario(sc *Scenario) {
 			for _, b := range branch {
 				for _, it := range rig.ItemsOf(b) {
 					if it.Ev != nil && admissibleReg(sc, it.Ev) {
-						if seen[regKey(it.Ev)] {
+						if seen[regKey(sc, it.Ev)] {
 							assumptionOK = false
 						}
-						seen[regKey(it.Ev)] = true
+						seen[regKey(sc, it.Ev)] = true
 					}
 				}
 			}
@@ -875,10 +880,10 @@ func (g *gen) addBlock(parent int, salt uint64, pending *[]syncrig.Item) int {
 			}
 		}
 		if admissibleReg(g.sc, &e) {
-			if keys[regKey(&e)] {
+			if keys[regKey(g.sc, &e)] {
 				continue
 			}
-			keys[regKey(&e)] = true
+			keys[regKey(g.sc, &e)] = true
 			g.seen = append(g.seen, e)
 		}
 		add(syncrig.Item{Ev: &e})
@@ -915,8 +920,17 @@ func genScenario(r *vh.RNG, forks bool) *Scenario {
 	sc.Defs = []DefSpec{{A: 1, T: -1, Gte: -1}, {A: 1, T: 0, Gte: -1}, {A: 2, T: 1, Gte: 5}, {A: 2, T: -1, Gte: 3}}
 	// two predicates on full words: a static data word and the second topic of contract 3
 	for i := 0; i < 2; i++ {
-		sc.Defs = append(sc.Defs, DefSpec{A: 3, T: -1, Gte: -1, Preds: []PredSpec{{
-			Ref: vh.Pick(r, 4, 4, 1), Op: vh.Pick(r, "lt", "lte", "eq", "gt", "gte"), Arg: vh.Pick(r, bigArgs...)}}})
+		d := DefSpec{A: 3, T: -1, Gte: -1, Preds: []PredSpec{{
+			Ref: vh.Pick(r, 4, 4, 1), Op: vh.Pick(r, "lt", "lte", "eq", "gt", "gte"), Arg: vh.Pick(r, bigArgs...)}}}
+		dup := false
+		for _, o := range sc.Defs {
+			if bytes.Equal(defBytes(o), defBytes(d)) {
+				dup = true
+			}
+		}
+		if !dup { // the same definition twice would only be another name for it
+			sc.Defs = append(sc.Defs, d)
+		}
 	}
 	if r.Chance(1, 3) {
 		sc.Defs = append(sc.Defs, DefSpec{Bad: 1 + r.Intn(3)})
